@@ -18,7 +18,7 @@ P("C17", [("V1", None), ("V13", None), ("V34", None)],
   "Verus proves, on the verbatim text of Solution::combine and its helpers, the strongest functional postcondition "
   "(r == spec_combine) and 'never claims more than either candidate'; commutativity is a lemma over that contract; and on the verbatim text of "
   "MayInvalidate::aggregate_tys that the check 'no future answer can change the guidance' answers false only when the new answer's type is an instance of the current guidance's type "
-  "(one level, for every pair of type constructors) and, on MayInvalidate::aggregate_consts, only when the new answer's constant is an instance of the guidance's (types are, and a variable in the guidance / the same placeholder / equal concrete values); and on the verbatim text of AntiUnifier::aggregate_consts and the three fresh-variable constructors (V34) that two CONSTANTS are merged into the "
+  "(one level, for every pair of type constructors) and, on MayInvalidate::aggregate_consts, only when the new answer's constant is an instance of the guidance's (types are, and a variable in the guidance / the same placeholder / equal concrete values), and the per-argument dispatcher aggregate_generic_args only for an argument that is an instance of the guidance's argument; and on the verbatim text of AntiUnifier::aggregate_consts and the three fresh-variable constructors (V34) that two CONSTANTS are merged into the "
   "first one only when both answers carry the same placeholder or concrete values the interner calls equal, and into a fresh unknown of the anti-unifier's universe (typed like the first) in every other case - so both are instances of the result. Unbounded.",
   "Assumed: derived PartialEq/Clone semantics, is_identity_subst / Constraints::is_empty abstract; of the anti-unifier only the constant leaf and the variable constructors are reached: "
   "AntiUnifier::aggregate_tys / aggregate_lifetimes / aggregate_generic_args / merge_into_guidance are not; argument lists are abstract in V13.",
